@@ -539,6 +539,11 @@ def build_source(spec, d, rec):
                 short = (lmin, set(cand))
                 S.limit = short
         _write_file(path, data, ff, meta, logs, tables, spec, short)
+        if short is not None:
+            # the recording was truncated, the metadata still name all events
+            # (the writer derives the count from the alphabetically first feature)
+            with h5py.File(path, "a") as h5:
+                h5.attrs["experiment:event count"] = n
         ds = dclab.new_dataset(path)
         if tmp_later:
             feat_temp.set_temporary_feature(ds, "vf_vec", data["vf_vec"])
@@ -549,11 +554,6 @@ def build_source(spec, d, rec):
         ff = [f for f in file_feats if f != "vf_vec" or spec["temp_in_file"]]
         if "vf_vec" in feats and "vf_vec" not in ff:
             feats.remove("vf_vec")
-        if spec["basin_mapped"]:
-            # ragged / dict features through a mapped basin are not part of this
-            # property (DESIGN §7 candidate 6, property C07)
-            ff = [f for f in ff if f not in ("contour", "trace")]
-            feats = [f for f in feats if f not in ("contour", "trace")]
         _write_file(pa, data, ff, meta, {}, {}, spec)
         sc = [f for f in ff if kind(f) == "scalar"]
         stored = sc[: spec["basin_stored"]]
